@@ -15,12 +15,21 @@ def queries(tier):
     F = '_ZSt16__introsort_loopIN9__gnu_cxx17__normal_iteratorIPjSt6vectorIjSaIjEEEElNS0_5__ops15_Iter_less_iterEEvT_S9_T0_T1_'
     us = ['%s.%d:1' % (F, i) for i in range(6)]
     # digits (least significant first): state | 4*goal ; states 0..2 are vertices, 3 is not
-    seqs = [(1, 0x4), (1, 0x7), (2, 0x54), (2, 0x46), (2, 0x44), (3, 0x654), (3, 0x456), (3, 0x546), (3, 0x210), (3, 0x416), (3, 0x474)]
-    if tier == 'thorough': seqs += [(3, 0x465), (3, 0x645), (3, 0x564), (3, 0x102), (3, 0x021), (4, 0x4654), (4, 0x6145), (4, 0x2106)]
-    pd = [Query('plannerdata_marks[seq=%x]' % sq, 'C09_pdata.cpp', 'harness_marks', tus=['src/ompl/base/src/PlannerData.cpp'], defines={'NOPS': k, 'SEQ': sq}, unwind=5, unwindset=us, timeout=to,
-                bound='mark sequence %x (hex digit k: state | 4*goal, state 3 is not a vertex), 3 vertices with ARBITRARY distinct indices in [0,7] (every relative order)' % sq)
-          for k, sq in seqs]
-    pd.append(Query('plannerdata_marks[ops=1]', 'C09_pdata.cpp', 'harness_marks', tus=['src/ompl/base/src/PlannerData.cpp'], defines={'NOPS': 1}, unwind=5, unwindset=us, timeout=to,
+    # one mark: decided in seconds.  Two and three marks: on the REPAIRED tree markGoalState sorts the goal list itself and the symbolic execution of
+    # std::sort over it (introsort recursion, data-dependent sizes) does not finish within 10 minutes even with the index order case-split - these are
+    # thorough-tier attempts (on the unrepaired tree, where the sort ran on the other, empty list, they were decided in ~2 min and found the defect)
+    seqs = [(1, 0x4, None), (1, 0x7, None)]
+    for order in (() if tier == 'quick' else (0x752, 0x725, 0x572, 0x527, 0x275, 0x257)):
+        for k, sq in ((2, 0x54), (2, 0x46), (2, 0x44), (3, 0x654), (3, 0x456), (3, 0x416), (3, 0x474)):
+            if tier == 'quick' and k == 3 and order not in (0x752, 0x257, 0x527): continue
+            seqs.append((k, sq, order))
+    if tier == 'thorough': seqs += [(2, 0x54, None), (2, 0x46, None), (3, 0x654, None), (3, 0x210, None)]
+    F1 = ['%s:1' % F]
+    pd = [Query('plannerdata_marks[seq=%x%s]' % (sq, ',order=%x' % o if o else ''), 'C09_pdata.cpp', 'harness_marks', tus=['src/ompl/base/src/PlannerData.cpp'],
+                defines=dict({'NOPS': k, 'SEQ': sq}, **({'IDXORD': o} if o else {})), unwind=5, unwindset=us + F1, timeout=to, checks='none',
+                bound='mark sequence %x (hex digit k: state | 4*goal, state 3 is not a vertex) on 3 vertices with %s' % (sq, ('indices %x (hex digits, case split over the order)' % o) if o else 'ARBITRARY distinct indices in [0,7]'))
+          for k, sq, o in seqs]
+    pd.append(Query('plannerdata_marks[ops=1]', 'C09_pdata.cpp', 'harness_marks', tus=['src/ompl/base/src/PlannerData.cpp'], defines={'NOPS': 1}, unwind=5, unwindset=us, timeout=to, checks='none',
                     bound='one mark call, symbolic state and kind'))
     pd.append(Query('common_subspace_order', 'C09_common.cpp', 'harness_common_subspace_order', unwind=6, timeout=to,
                     bound='three subspace locations, dimensions in [0,3], one-letter names over 4 letters'))
